@@ -45,7 +45,8 @@ REGISTRY = {
             "lspHover_never_panics", "check_keeps_parse_diags", "complete_is_benign_expr"],
     "C19": ["text_hover_complete", "lsp_state_is_latest", "lsp_hover_answers_latest", "lsp_unknown_document", "lsp_no_cross_document",
             "lsp_queries_pure", "hover_expr_sound", "hover_expr_complete", "goto_is_declaration",
-            "hover_text_is_decl_type"],
+            "hover_text_is_decl_type", "frame_roundtrip", "frames_roundtrip", "readFrame_ok_splits",
+            "server_wire", "server_output_exact"],
     "C20": ["check_exit_iff_error", "cli_exit_args_literal_one", "cli_check_single_exit_guard", "check_exit_byte_iff_error"],
 }
 
